@@ -25,7 +25,7 @@ def exprKws : List Nat :=
    KW.UNSIGNED, KW.NULL, KW.NOT, KW.TRUE, KW.FALSE, KW.UNKNOWN, KW.DISTINCT,
    -- tested by the query layer directly after a list element
    kwIndex "AS", kwIndex "ASC", kwIndex "DESC", kwIndex "NULLS", kwIndex "ILIKE", kwIndex "EXCLUDE", kwIndex "REPLACE",
-   kwIndex "RENAME", kwIndex "GROUPING", kwIndex "CUBE", kwIndex "ROLLUP"]
+   kwIndex "RENAME", kwIndex "GROUPING", kwIndex "CUBE", kwIndex "ROLLUP", kwIndex "FIRST", kwIndex "LAST", kwIndex "FILL"]
 
 theorem reserved_facts : reservedForColumnAlias.all (fun k => kwClass k == .other && !exprKws.contains k) = true := by
   decide +kernel
@@ -948,5 +948,63 @@ theorem eatKws_none' {x : Tok} (r : List Tok) (ks : List Nat) (hks : ∀ k ∈ k
         | cons k2 ks2 =>
           rw [ih (fun k hk => hks k (by simp [hk])) (by simp) hr]
       · simp at h
+
+theorem parsePrefix_rparen (c : Cfg) (f d : Nat) (tail : List Tok) (e : Expr) (rest : List Tok) :
+    parsePrefix c f d (.sym .RParen :: tail) ≠ .ok (e, rest) := by
+  intro h
+  cases f with
+  | zero => simp [parsePrefix] at h
+  | succ f =>
+    simp only [parsePrefix] at h
+    split at h
+    · simp at h
+    · simp [prefixHead] at h
+
+theorem parseSubexpr_rparen (c : Cfg) (f d p : Nat) (tail : List Tok) (e : Expr) (rest : List Tok) :
+    parseSubexpr c f d p (.sym .RParen :: tail) ≠ .ok (e, rest) := by
+  intro h
+  cases f with
+  | zero => simp [parseSubexpr] at h
+  | succ f =>
+    cases d with
+    | zero => simp [parseSubexpr] at h
+    | succ d =>
+      simp only [parseSubexpr] at h
+      split at h
+      · simp at h
+      · rename_i e0 ts' hp; exact parsePrefix_rparen _ _ _ _ _ _ hp
+
+/-- `( )` and a lone `(` are not expressions -/
+theorem parseSubexpr_lparen (c : Cfg) (f d p : Nat) (rest0 : List Tok) (e : Expr) (rest : List Tok)
+    (h : parseSubexpr c f d p (.sym .LParen :: rest0) = .ok (e, rest)) :
+    rest0 ≠ [] ∧ ∀ tail, rest0 ≠ .sym .RParen :: tail := by
+  cases f with
+  | zero => simp [parseSubexpr] at h
+  | succ f =>
+    cases d with
+    | zero => simp [parseSubexpr] at h
+    | succ d =>
+      simp only [parseSubexpr] at h
+      split at h
+      · simp at h
+      · rename_i e0 ts' hp
+        cases f with
+        | zero => simp [parsePrefix] at hp
+        | succ f =>
+          simp only [parsePrefix] at hp
+          split at hp
+          · simp at hp
+          · split at hp
+            · simp at hp
+            · rename_i k toks r0 hh; have := prefixHead_lparen _ _ _ hh; simp at this
+            · rename_i o t p' r0 hh; have := prefixHead_lparen _ _ _ hh; simp at this
+            · rename_i r0 hh
+              have := prefixHead_lparen _ _ _ hh
+              simp at this; subst this
+              split at hp
+              · simp at hp
+              · rename_i e1 r1 hs
+                exact ⟨parseSubexpr_ne_nil _ _ _ _ _ _ _ hs, fun tail ht => by
+                  subst ht; exact parseSubexpr_rparen _ _ _ _ _ _ _ hs⟩
 
 end SqlVerif.Pratt
